@@ -4816,3 +4816,100 @@ def flw8s(ctx):
     if n < 2:
         raise AnchorMissing("FLW-8s: no loop over the set's alternatives found in input_match_set")
     return r
+
+
+# ---------------------------------------------------------------- FLW-3e: the trace is built group by group, nothing else decides it
+
+def flw3e(ctx):
+    """apply_rules_trace reports a group iff the phrase differs before and after that group. Its only way out (besides an
+    error) is the end of the function, with the list the per-group loop filled: an early `return` -- "the final phrase
+    equals the input, so nothing changed" -- hides groups whose changes a later group undid."""
+    r = RuleResult("FLW-3e", "apply_rules_trace has no early return: the change list comes out of the loop over the groups", floor=1)
+    lib = ctx.lib
+    b = ctx.fn(lib, "asca::apply_rules_trace")
+    tree = hirq.inline_helpers(lib, b, prefixes=("asca::",), max_depth=1, only_if=lambda cb: re.match(r"^asca::\w+$", cb.path) is not None and cb.path not in ("asca::apply_rule_groups",))
+    rets = [x for x in hirq.walk(tree) if x["e"] == "ret" and not x.get("exp")]
+    loops = [x for x in hirq.walk(tree) if x["e"] == "loop"]
+    if not loops:
+        raise AnchorMissing("FLW-3e: apply_rules_trace has no loop over the rule groups")
+    r.inst("apply_rules_trace: %d early return(s)" % len(rets), fn_loc(b), "ok" if not rets else "report")
+    for k, x in enumerate(rets):
+        r.report("FLW-3e|apply_rules_trace|return#%d" % k, fn_loc(b, x.get("ln")), b.path,
+                 "apply_rules_trace returns before / outside its per-group loop: whether a group is reported no longer depends on that group's before/after comparison alone -- with `e > a` then `a > e` on `pet` the trace is empty although both groups changed the word")
+    return r
+
+
+# ---------------------------------------------------------------- SYN-8: the word reader only builds at the end of the syllable
+
+def syn8(ctx):
+    """Word::fill_segments / Word::setup turn text into segments left to right; a character (a diacritic, a length mark)
+    applies to the segment being built, the last one of the syllable. The reader touches `sy.segments` only at its back:
+    push_back / pop_back / back / back_mut (and reads). It never writes an earlier segment (`iter_mut`, `segments[k] = ..`,
+    `insert`, `get_mut`): an earlier segment was fixed by an earlier piece of text, and rewriting it makes `ttʰ` (plain t,
+    then aspirated t) read as a long aspirated t -- which the renderer spells differently."""
+    r = RuleResult("SYN-8", "Word::fill_segments / Word::setup modify the syllable under construction only at its end (push_back / pop_back / back_mut), never an earlier segment", floor=6)
+    lib = ctx.lib
+    # get_mut: the `+` deromaniser edits the first copy of the last run (its index comes from get_seg_indices)
+    BACK = {"push_back", "pop_back", "back", "back_mut", "len", "is_empty", "iter", "last", "contains", "clone", "extend", "truncate", "get", "get_mut", "front", "capacity"}
+    n = 0
+    for path in ("asca::word::Word::fill_segments", "asca::word::Word::setup"):
+        b = ctx.fn(lib, path)
+        k = 0
+        for x in hirq.walk(b.hir["body"]):
+            bad = None
+            if x["e"] == "mcall" and "VecDeque<asca::seg::Segment>" in (x.get("rty") or ""):
+                n += 1
+                if x["name"] not in BACK:
+                    bad = "`.%s(..)`" % x["name"]
+            elif x["e"] in ("assign", "assignop"):
+                l = hirq.strip(x["lhs"])
+                if l.get("e") == "index" and "VecDeque<asca::seg::Segment>" in (l.get("of_ty") or ""):
+                    n += 1
+                    bad = "an indexed assignment `segments[..] = ..`"
+            else:
+                continue
+            short = path.rsplit("::", 1)[-1]
+            if bad:
+                r.inst("%s: segment deque access #%d" % (short, k), fn_loc(b, x.get("ln")), "report")
+                r.report("SYN-8|%s|#%d" % (short, k), fn_loc(b, x.get("ln")), path,
+                         "the word reader rewrites a segment that is not the one being built (%s on the syllable's segments): what an earlier piece of the text produced changes when a later character is read, so `ttʰ` ([t][tʰ]) is read back as a long [tʰ] and the output of a run is no longer a fixed point of reading it again" % bad)
+            elif x["e"] == "mcall":
+                r.inst("%s: segment deque access #%d through `%s`" % (short, k, x["name"]), fn_loc(b, x.get("ln")), "ok")
+            k += 1
+    if n < 6:
+        raise AnchorMissing("SYN-8: %d accesses of the syllable's segment deque in fill_segments / setup (expected >= 6)" % n)
+    return r
+
+
+# ---------------------------------------------------------------- CLI-17: the exported history is read with the root's deromanisers
+
+def cli17(ctx):
+    """`conv tag --recurse` exports the ROOT tag's words with the whole rule history. Those words are in the root's
+    orthography, so the `into` aliases of the exported json are the root's (get_orig_alias_into) and nothing else; only the
+    `from` aliases are the tag's own."""
+    r = RuleResult("CLI-17", "convert::from_seq, --recurse: the `into` of the exported json comes from get_orig_alias_into alone (the words exported are the root's)", floor=1)
+    bn = ctx.bin
+    b = ctx.fn(bn, "asca_bin::cli::convert::from_seq")
+    root = b.hir["body"]
+    binds = Bindings(root, b.hir.get("params"))
+    par = hirq.parent_map(root)
+    n = 0
+    for x in hirq.walk(root):
+        if x["e"] != "struct" or not (x.get("path") or "").endswith("AscaJson"):
+            continue
+        fields = {f[0]: f[1] for f in x.get("fields", [])}
+        # is this the recursive export? its words come from get_orig_words
+        ws = _value_sources(fields.get("words"), binds) if "words" in fields else set()
+        if not any(s[0] == "call" and s[1].endswith("get_orig_words") for s in ws):
+            continue
+        n += 1
+        ss = _value_sources(fields.get("into"), binds) if "into" in fields else set()
+        ok = bool(ss) and all(s[0] == "call" and s[1].endswith("get_orig_alias_into") for s in ss)
+        r.inst("from_seq: the recursive export pairs the root's words with the root's deromanisers", fn_loc(b, x.get("ln")), "ok" if ok else "report")
+        if not ok:
+            r.report("CLI-17|from_seq|into", fn_loc(b, x.get("ln")), b.path,
+                     "the `into` aliases of the recursive export are not just get_orig_alias_into's (they are built from %s): the exported words are the root tag's, so a daughter tag's own @into section reads them with the wrong deromaniser and one run of the exported json no longer equals the staged `seq` result"
+                     % ", ".join(sorted("%s %s" % s for s in ss)))
+    if n < 1:
+        raise AnchorMissing("CLI-17: no AscaJson built from get_orig_words found in from_seq")
+    return r
